@@ -155,6 +155,8 @@ pub struct World {
     pub in_retain: bool,
     pub overlap: bool,
     pub handles: i32,
+    /// An abandonment happened since the last exact at-rest check.
+    pub abandon_mark: bool,
 }
 
 thread_local! {
@@ -199,6 +201,7 @@ pub fn init_world(cfg: PoolCfg, base: &[&'static str]) {
             in_retain: false,
             overlap: false,
             handles: 0,
+            abandon_mark: false,
         })
     });
 }
@@ -619,12 +622,14 @@ impl World {
     pub fn get_cancelled(&mut self, gi: usize) {
         self.events += 1;
         self.abandoned += 1;
+        self.abandon_mark = true;
         self.gets[gi].outcome = Some(GetOut::Cancelled);
     }
 
     pub fn get_panicked(&mut self, gi: usize, msg: &str) {
         self.events += 1;
         self.abandoned += 1;
+        self.abandon_mark = true;
         let injected = self.gets[gi].injected_panic && msg == INJECTED;
         if !injected {
             let b = self.blame();
@@ -964,13 +969,14 @@ pub fn op_release(who: usize) -> bool {
     let (closed_before, surplus_before) = w(|w| {
         w.begin_op(who, OpKind::Release);
         w.objs[id].loc = Loc::Pool;
-        (w.close_returned, w.resizes_begun == w.resize_epoch && w.resizes_begun > 0 && !w.close_begun && w.live() > w.limit.max(w.limit_alt.unwrap_or(0)))
+        (w.close_returned, false)
     });
+    let _ = surplus_before;
     drop(o);
     w(|w| {
         w.objs[id].in_flight = false;
         let alive = w.objs[id].alive;
-        if !alive && w.handles == 0 {
+        if !alive && w.handles == 0 && w.objs[id].detach == 0 {
             // no pool left to return to: the object simply goes away
             w.objs[id].destroyed_in = Some(OpKind::DropPool);
         }
@@ -978,8 +984,14 @@ pub fn op_release(who: usize) -> bool {
             if closed_before {
                 w.violate(&["C06"], "returned-object-kept-after-close", format!("object {} returned after close() had returned was kept by the pool", id));
             }
-            if surplus_before && w.resizes_begun == w.resize_epoch {
-                w.violate(&["C07"], "surplus-kept-on-return", format!("object {} came back while more than {} objects existed and was kept", id, w.limit));
+            // "surplus" is only unambiguous when every live object is
+            // accounted for (nothing being created, tried or returned by an
+            // operation still in progress)
+            let settled = w.creating == 0
+                && !w.objs.iter().any(|o| o.alive && o.in_flight)
+                && w.ops.iter().all(|(k, o)| *k == who || !matches!(o.0, OpKind::Release | OpKind::Take | OpKind::Resize));
+            if settled && w.resizes_begun == w.resize_epoch && w.resizes_begun > 0 && !w.close_begun && w.live() > w.limit.max(w.limit_alt.unwrap_or(0)) {
+                w.violate(&["C07"], "surplus-kept-on-return", format!("object {} came back and was kept although {} objects exist and the limit is {}", id, w.live(), w.limit));
             }
             w.ref_idle.push_back(id);
         }
